@@ -254,7 +254,7 @@ Here we assume that all parts have numeric arguments, except for
         optionname = spec[position]
         if optionname in constructions:
             raise ValueError("No need for another construction specification")
-        elif optionname not in options[graphtype] and optionname[0] == '-':
+        elif optionname not in options[graphtype] and optionname[:1] == '-':
             raise ValueError(
                 "Optional arguments as `{}` should be before any positional/graph argument"
                 .format(optionname))
